@@ -38,7 +38,7 @@ type Loaded struct {
 }
 
 var specHelperNames = map[string]bool{
-	"old": true, "implies": true, "iff": true, "forall": true, "exists": true, "forall2": true,
+	"old": true, "athead": true, "implies": true, "iff": true, "forall": true, "exists": true, "forall2": true,
 	"Z": true, "result": true, "panics": true, "fresh": true, "strdigits": true, "parsedec": true,
 	"substr": true, "imin": true, "imax": true, "lower": true, "isnil": true, "typeis": true,
 	"sliceeq": true, "sameslice": true, "psum": true, "let": true, "ite": true, "alloc": true,
@@ -49,6 +49,7 @@ const specPreludeGo = `
 type Z int
 
 func old[T any](x T) T                  { return x }
+func athead[T any](x T) T               { return x }
 func implies(a, b bool) bool            { return !a || b }
 func iff(a, b bool) bool                { return a == b }
 func forall(f func(i int) bool) bool    { return f(0) }
